@@ -62,7 +62,7 @@ VARIABLES
 vars == <<msg, hist, base, ckpt, owner, rb, cpos, cheld, termT, gvtSeen, gvtCnt, gvtVals, finiLp, finiQ,
           votes, stopped, exited, hand, voted, maxDecl, mustVote, announced, net, rx, lastNm, early>>
 
-NoRx == [kind |-> "none", t |-> -1, id |-> 0, sq |-> 0, src |-> -1, nm |-> 0]
+NoRx == [kind |-> "none", t |-> -1, id |-> 0, sq |-> 0, src |-> -1, nm |-> 0, pnm |-> 0]
 NoRb == [on |-> FALSE, lp |-> -1, past |-> 0, restored |-> FALSE, touched |-> {}]
 
 Init ==
@@ -108,6 +108,9 @@ HasProcM(m, f) == IF FromNet(m) THEN Low(f) >= 2 ELSE HasProc(f)
 \* two buffers carry the same remote identity (an event and its anti-message)
 SameRemote(a, b) == msg[a].nm # 0 /\ msg[b].nm # 0 /\ msg[a].sq = msg[b].sq /\ (msg[a].flags - Low(msg[a].flags)) = (msg[b].flags - Low(msg[b].flags))
 
+\* true identity (ghost): the anti-message am was put on the network to cancel exactly the send whose network identity is msg[am].pnm;
+\* independent of how the code stamps and compares identities (sender id, sequence number)
+Cancels(am, m) == msg[am].pnm # 0 /\ msg[m].nm = msg[am].pnm /\ ~msg[m].rem
 InboxOf(r) == {m \in DOMAIN msg : msg[m].inq = "inbox" /\ msg[m].q = r}
 HeapOf(r) == {m \in DOMAIN msg : msg[m].inq = "heap" /\ msg[m].q = r}
 HandOf(r) == IF hand[r] = 0 THEN {} ELSE {hand[r]}
@@ -129,7 +132,7 @@ Failed(cs) == SelectSeq(cs, LAMBDA c : ~c[1])
 ----------------------------------------------------------------------------
 (* msg_allocator_alloc (src/mm/msg_allocator.c) *)
 Alloc(r, m) ==
-  /\ msg' = Put(msg, m, [lp |-> -1, t |-> -1, ty |-> -1, pid |-> -1, flags |-> 0, inq |-> "new", q |-> r, src |-> -1, rem |-> FALSE, sq |-> 0, nm |-> 0])
+  /\ msg' = Put(msg, m, [lp |-> -1, t |-> -1, ty |-> -1, pid |-> -1, flags |-> 0, inq |-> "new", q |-> r, src |-> -1, rem |-> FALSE, sq |-> 0, nm |-> 0, pnm |-> 0])
   /\ UNCHANGED <<hist, base, ckpt, owner, rb, cpos, cheld, termT, gvtSeen, gvtCnt, gvtVals, finiLp, finiQ, votes,
                  stopped, exited, hand, voted, maxDecl, mustVote, announced, net, rx, lastNm, early>>
 AllocChecks(r, m) ==
@@ -154,7 +157,9 @@ Push(r, m, q, c) ==
                                 THEN [@ EXCEPT !.lp = c.lp, !.t = c.t, !.ty = c.ty, !.pid = c.pid, !.inq = "inbox", !.q = q,
                                                \* a message that arrived from another rank carries its identity in the flag word
                                                !.flags = IF rx[r].kind = "none" THEN @ ELSE (rx[r].id - Low(rx[r].id)) + (IF rx[r].kind = "anti" THEN 1 ELSE 0),
-                                               !.nm = IF rx[r].kind = "none" THEN 0 ELSE rx[r].nm, !.sq = rx[r].sq]
+                                               !.nm = IF rx[r].kind = "none" THEN 0 ELSE rx[r].nm, !.sq = rx[r].sq,
+                                               \* an anti-message also carries (ghost) the network identity of the send it cancels
+                                               !.pnm = IF rx[r].kind = "anti" THEN rx[r].pnm ELSE 0]
                                 ELSE [@ EXCEPT !.inq = "inbox", !.q = q]]
   /\ rx' = [rx EXCEPT ![r] = IF msg[m].inq = "new" THEN NoRx ELSE @]
   /\ UNCHANGED <<hist, base, ckpt, owner, rb, cpos, cheld, termT, gvtSeen, gvtCnt, gvtVals, finiLp, finiQ, votes,
@@ -300,6 +305,8 @@ ExecChecks(r, p, m, size, calc) ==
      <<Live(m) => msg[m].t >= LastEvT(p), "C01", "event executed after a later event of the same LP without rollback">>,
      <<Live(m) => ~\E am \in early[p] : Live(am) /\ SameRemote(m, am), "C06", "an event cancelled by an early remote anti-message was delivered">>,
      <<Live(m) => ~\E am \in early[p] : Live(am) /\ SameRemote(m, am), "C02", "an event cancelled by an early remote anti-message was delivered">>,
+     <<Live(m) => ~\E am \in early[p] : Live(am) /\ Cancels(am, m), "C06", "an event was delivered although the anti-message sent to cancel it is parked at the LP">>,
+     <<Live(m) => ~\E am \in early[p] : Live(am) /\ Cancels(am, m), "C02", "an event was delivered although the anti-message sent to cancel it is parked at the LP">>,
      <<size = calc, "C11", "checkpoint size accounting differs from the allocator contents">> >>
 
 (* checkpoint_take (process.c:78) *)
@@ -497,7 +504,9 @@ EarlyStore(r, p, am) ==
 EarlyStoreChecks(r, p, am) ==
   << <<Live(am) /\ hand[r] = am /\ msg[am].lp = p, "C06", "parked an anti-message that was not just extracted for this LP">>,
      <<Live(am) => ~\E i \in 1..Len(hist[p]) : hist[p][i].k = "e" /\ Live(hist[p][i].m) /\ SameRemote(hist[p][i].m, am),
-       "C06", "anti-message parked as early although the event it cancels has been processed">> >>
+       "C06", "anti-message parked as early although the event it cancels has been processed">>,
+     <<Live(am) => ~\E i \in 1..Len(hist[p]) : hist[p][i].k = "e" /\ Live(hist[p][i].m) /\ Cancels(am, hist[p][i].m),
+       "C06", "anti-message parked as early although the event it was sent to cancel has been processed">> >>
 
 (* check_early_anti_messages: the event arrives after its anti-message: both are annihilated *)
 EarlyMatch(r, p, m, am) ==
@@ -508,7 +517,9 @@ EarlyMatchChecks(r, p, m, am) ==
   << <<am \in early[p], "C06", "matched an anti-message that was not parked at this LP">>,
      <<Live(m) /\ Live(am) /\ hand[r] = m, "C06", "early annihilation of buffers that are not live / not in hand">>,
      <<(Live(m) /\ Live(am)) => SameRemote(m, am), "C06", "an event was annihilated by the anti-message of a different event">>,
-     <<(Live(m) /\ Live(am)) => SameRemote(m, am), "C02", "an event was annihilated by the anti-message of a different event">> >>
+     <<(Live(m) /\ Live(am)) => SameRemote(m, am), "C02", "an event was annihilated by the anti-message of a different event">>,
+     <<(Live(m) /\ Live(am)) => Cancels(am, m), "C06", "an event was annihilated by an anti-message that was sent to cancel a different event (the identities stamped on remote messages collide)">>,
+     <<(Live(m) /\ Live(am)) => Cancels(am, m), "C02", "an event was annihilated by an anti-message that was sent to cancel a different event (the identities stamped on remote messages collide)">> >>
 
 (* handle_remote_anti_msg: the cancelled event was processed: roll back to before it *)
 RAntiMatch(r, p, m, am, past) ==
@@ -519,6 +530,8 @@ RAntiMatchChecks(r, p, m, am, past) ==
   << <<Live(m) /\ Live(am) /\ hand[r] = am, "C06", "remote annihilation of buffers that are not live / not in hand">>,
      <<(Live(m) /\ Live(am)) => SameRemote(m, am), "C06", "an event was annihilated by the anti-message of a different event">>,
      <<(Live(m) /\ Live(am)) => SameRemote(m, am), "C02", "an event was annihilated by the anti-message of a different event">>,
+     <<(Live(m) /\ Live(am)) => Cancels(am, m), "C06", "an event was annihilated by an anti-message that was sent to cancel a different event (the identities stamped on remote messages collide)">>,
+     <<(Live(m) /\ Live(am)) => Cancels(am, m), "C02", "an event was annihilated by an anti-message that was sent to cancel a different event (the identities stamped on remote messages collide)">>,
      <<\E i \in IdxOf(p, "e", m) : i > past, "C06", "the rollback for a remote anti-message does not undo the cancelled event">> >>
 
 FreeAtGvt(r, m) == UNCHANGED vars
